@@ -57,6 +57,7 @@ type LoopSpec struct {
 	Steps     []*Clause // proved at every back edge (phis still denote the values at the loop head)
 	Unfolds   []*Clause // rec-function applications whose defining equation is assumed at the loop head
 	Decreases *Clause
+	AssumeTerm string // "terminates-assumed <reason>": termination of this loop is an ASSUMPTION (reported), not proved
 }
 
 type FuncSpec struct {
@@ -318,6 +319,14 @@ func (ss *SpecSet) LoadSpecFile(path, pkgPath string) error {
 		case "fuel":
 			if cur != nil {
 				fmt.Sscanf(rest, "%d", &cur.Fuel)
+			}
+		case "terminates-assumed":
+			if curLoop == nil {
+				return fmt.Errorf("%s: terminates-assumed outside a loop", where)
+			}
+			curLoop.AssumeTerm = strings.TrimSpace(rest)
+			if curLoop.AssumeTerm == "" {
+				curLoop.AssumeTerm = "(no reason given)"
 			}
 		case "step":
 			if curLoop == nil {
